@@ -45,3 +45,77 @@ package transports
 //@   ensures this.$sid == sid
 //@ func Transport.Send(packets)
 //@   modifies this.$writable
+
+//@ ghost field Transport.$maxbuf int64
+//@ ghost field Transport.$supportsBinary bool
+
+//@ func Transport.Proto()
+//@   opt stable
+//@   noeffect
+//@   ensures result != nil
+//@ func Transport.Parser()
+//@   opt stable
+//@   noeffect
+//@   ensures result != nil
+//@ func Transport.SupportsBinary()
+//@   pure
+//@   ensures result == this.$supportsBinary
+//@ func Transport.MaxHttpBufferSize()
+//@   pure
+//@   ensures result == this.$maxbuf
+//@ func Transport.HttpCompression()
+//@   opt stable
+//@   noeffect
+//@ func Transport.PerMessageDeflate()
+//@   opt stable
+//@   noeffect
+//@ func Transport.SetMaxHttpBufferSize(size)
+//@   modifies this.$maxbuf
+//@   ensures this.$maxbuf == size
+//@ func Transport.SetHttpCompression(hc)
+//@   noeffect
+//@ func Transport.SetPerMessageDeflate(pmd)
+//@   noeffect
+//@ func Transport.SetWritable(writable)
+//@   modifies this.$writable
+//@   ensures this.$writable == writable
+//@ func Transport.SetReadyState(state)
+//@   modifies this.$rstate
+//@   ensures this.$rstate == state
+//@ func Transport.OnError(msg, desc)
+//@   noeffect
+//@ func Transport.OnPacket(packet)
+//@   noeffect
+//@ func Transport.OnData(data)
+//@   noeffect
+//@ func Transport.OnClose()
+//@   modifies this.$rstate
+//@ func Transport.OnRequest(ctx)
+//@   modifies *
+//@ func Transport.DoClose(fn)
+//@   modifies *
+//@ func Transport.Construct(ctx)
+//@   modifies *
+
+// ---- polling -------------------------------------------------------------------------------------------
+//@ func (*polling).OnClose()
+//@   modifies *
+//@ func (*polling).Send(packets)
+//@   props C12
+//@   requires p != nil && p.Transport != nil
+//@   modifies p.Transport.$writable
+//@   ensures [C12.sendclears] !p.Transport.$writable
+
+// one OnPacket per decoded packet, in order; a close packet ends the payload: nothing after it is delivered
+//@ func (*polling).OnData(data)
+//@   props C02
+//@   requires p != nil && p.Transport != nil
+//@   modifies *
+//@   loop 1 invariant calls(Transport.OnPacket) == $i && calls((*polling).OnClose) == 0
+//@   loop 1 decreases len(packets) - $i
+//@   ensures [C02.payloadall]   calls((*polling).OnClose) == 0 ==> calls(Transport.OnPacket) == len(ret(parser.Parser.DecodePayload, 1, 0))
+//@   ensures [C02.stopatclose]  calls((*polling).OnClose) <= 1 && calls(Transport.OnPacket) <= len(ret(parser.Parser.DecodePayload, 1, 0))
+//@   callsite Transport.OnPacket
+//@     assert [C02.notclose] $packet == packetData && packetData.Type != packet.CLOSE
+//@   callsite (*polling).OnClose#1
+//@     assert [C02.closepacket] packetData.Type == packet.CLOSE && calls(Transport.OnPacket) == $i
